@@ -1,0 +1,16 @@
+//go:build !verif
+// +build !verif
+
+// Package verifhook provides schedule and observation points used only by the
+// external verification harness. Without the "verif" build tag every function
+// is an empty, inlinable stub.
+package verifhook
+
+// Yield marks a schedule point.
+func Yield(label string) {}
+
+// YieldInt marks an observation point carrying an integer.
+func YieldInt(label string, v int64) {}
+
+// YieldStr marks an observation point carrying a string.
+func YieldStr(label string, s string) {}
